@@ -173,3 +173,25 @@ def addr(payload):
             r['error'] = exc_info(e)
         out.append(r)
     return dict(results=out)
+
+def zmat(payload):
+    out = []
+    for case in payload['cases']:
+        r = dict(id=case['id'])
+        try:
+            spec = case['spec']
+            r['spec'] = spec
+            m = gen.build(dict(spec, sources=[], loads=[]))
+            o = facts(m)
+            m.compute_impedance_matrix()
+            Z = np.array(m.Z)
+            o['Z'] = [[hxc(v) for v in row] for row in Z]
+            o['f'] = hx(m.f)
+            unc = m.pulses.matrix_geo_unconnected()
+            o['unconn'] = [[bool(x) for x in row] for row in unc]
+            o['cond'] = float(np.linalg.cond(Z)) if len(Z) else 1.0
+            r['obs'] = o
+        except Exception as e:
+            r['error'] = exc_info(e)
+        out.append(r)
+    return dict(results=out)
